@@ -57,6 +57,12 @@ var Profiles = map[string]Profile{
 	"convcall": {Types: []string{"T1", "T2", "T3", "T4"}, Ifaces: []string{"I1", "I2"}, Names: []string{"", "", "a", "b"}, Subs: []string{"", "", "s"},
 		MaxIn: 2, MaxOut: 2, MaxTIn: 1, MaxInputs: 3, MaxConvs: 4, Forms: []string{"pos", "struct", "ptr", "built"}, FailProb: 0.1, OnceProb: 0.1,
 		MultiMax: -1, Modes: []string{"convcall"}},
+	"conc": {Types: []string{"T1", "T2", "T3", "T4"}, Ifaces: []string{"I1"}, Names: []string{"", "", "a", "b"}, Subs: []string{"", "s", "t"},
+		MaxIn: 2, MaxOut: 2, MaxTIn: 3, MaxInputs: 3, MaxConvs: 4, Forms: []string{"pos", "struct", "ptr"}, FailProb: 0.1, OnceProb: 0.4,
+		MultiMax: -1, Modes: []string{"call"}, TargetOuts: 1},
+	"built": {Types: []string{"T1", "T2", "T3", "T4"}, Ifaces: []string{"I1"}, Names: []string{"", "", "a", "b"}, Subs: []string{"", "", "s"},
+		MaxIn: 2, MaxOut: 2, MaxTIn: 3, MaxInputs: 3, MaxConvs: 4, Forms: []string{"built"}, FailProb: 0.15, OnceProb: 0.15,
+		MultiMax: -1, Modes: []string{"call", "call", "call", "redefine"}, TargetOuts: 2},
 	"wild": {Types: []string{"T1", "T2", "T3", "T4", "T5", "U1"}, Ifaces: []string{"I1", "I2"}, Names: []string{"", "", "a", "b", "c"}, Subs: []string{"", "", "s", "t"},
 		MaxIn: 3, MaxOut: 3, MaxTIn: 3, MaxInputs: 4, MaxConvs: 5, Forms: []string{"pos", "struct", "ptr", "built"}, FailProb: 0.1, OnceProb: 0.2,
 		MultiMax: -1, Modes: []string{"call", "call", "convert", "redefine"}, GenProb: 0.15, DefProb: 0.2, BadProb: 0.1, DupInputs: true, TargetOuts: 2},
